@@ -8,6 +8,7 @@
 
 #include <array>
 #include <functional>
+#include <map>
 #include <set>
 #include <string>
 #include <vector>
@@ -53,6 +54,9 @@ struct Ctx {
     const TreeView* view = nullptr;
     std::vector<std::array<double, 4>> inputs[2];   // [tree] -> index -> x,y,z,w
     bool tsm = false;
+    // periodic top-tree algorithm: the expansion object it used for each virtual level, per kernel object (cleared when an executor is built):
+    // what M2M wrote at level l is what M2L reads at level l and what M2M at level l-1 aggregates; same chain downwards for the locals
+    std::map<std::pair<const void*, long>, const void*> topMult, topLocal;
     bool topTreeCall = false;       // set by the world while the periodic top-tree algorithm runs (virtual levels)
 
     // switches
